@@ -18,6 +18,18 @@ CLAIMED = {
              text="The decoder is a finite machine: one symbolic step from an arbitrary state related to ghost positions (true, latched) by the representation invariant, for every next input including bounce and two-bit jumps, plus the base case, covers histories of any length; bounded histories from reset keep the invariant honest.",
              note="Trusted: cbmc 6.11 + minisat, the ghost model in harness/c19.c (Gray-code rule, latch at state 0).",
              ref="C19"),
+ "C12": dict(technique="bounded symbolic execution of pack.c (cbmc, SAT): one operation from an arbitrary cursor incl. the sticky overrun state, plus short operation sequences, against a byte-array model; cbmc dereference checks on an exactly-sized heap buffer",
+             text="One real pack/unpack call from ANY cursor position (inside, at the end, up to 40 bytes past the end) of a buffer of any size 0..12 with all argument bits symbolic must agree with a byte-array model with a sticky flag; since the cursor is the only state, the single step covers call sequences of any length over such buffers; bounded sequences from rf_pack_init cross-check the step's precondition.",
+             note="Trusted: cbmc 6.11 + minisat, the model in harness/c12.c. Tolerated and counted separately (not part of the property): forming/comparing the cursor past the buffer, p[3]<<24 signed shift.",
+             ref="C12"),
+ "C13": dict(technique="bounded symbolic execution of wavheader.c + pack.c (cbmc; kissat for the size arithmetic, minisat for the byte-level round trips), one query per declared length",
+             text="init/set_num_frames are executed with format, channels (1..65535), rate, frames and the ENTIRE prior structure symbolic; validate, field relations, encode->decode identity are asserted. Decode-first: every byte string of each length 44..72 that the real decoder accepts must re-encode to itself.",
+             note="Trusted: cbmc 6.11, kissat, minisat; FIELDS_EQ lists every field of rf_wavheader_t. byte_rate >= 2^31 is outside (signed overflow in the source).",
+             ref="C13"),
+ "C14": dict(technique="bounded symbolic execution of rf_wavheader_decode and helpers on exactly-sized heap buffers with every byte symbolic (cbmc, SAT), one query per declared length 0..72",
+             text="For each declared length all 2^(8*len) byte strings are covered by one SAT query: the return-value contract, every truncation point of every accepted header, and cbmc's dereference/bounds/division checks on decode, validate, get_format and tostring.",
+             note="Trusted: cbmc 6.11 + minisat; strdup_printf stubbed (arguments still evaluated by the real caller). Same tolerated pointer-arithmetic classes as C12.",
+             ref="C14"),
 }
 NA = {}
 
